@@ -128,7 +128,8 @@ def run_routing(env, rng, out, classes):
       # when the reply's last byte became readable at the client: replies share the connection, so the
       # pieces of earlier (segmented) replies that trickle out hold back the ones written behind them
       conn_ = next((c_ for c_ in broker.sim.conns if c_.id == r['conn']), None)
-      arrival = conn_.arrival_of('kafka:%d' % r['kafka']['correlation_id']) if conn_ is not None else None
+      # (correlation ids are recycled: the reply meant is the first one with that id written after the request came in)
+      arrival = conn_.arrival_of('kafka:%d' % r['kafka']['correlation_id'], not_before=r['vt']) if conn_ is not None else None
     if isinstance(ar.exception, ScalesTimeout) and payload in deadline_of and \
         (r is None or r.get('reply_vt') is None or arrival is None or
          max(arrival, r['reply_vt'] + r.get('chunk_delay', 0.0)) > deadline_of[payload] - 0.011):
